@@ -1914,34 +1914,51 @@ impl Db {
 		Ok(())
 	}
 
+	// A stage that is driven by hand fails like the worker that would run it: the error is
+	// recorded, the handle refuses further commits and the shutdown path does not run the stages
+	// again over what the failed step left half done.
+	#[cfg(feature = "instrumentation")]
+	fn step<T>(&self, result: Result<T>) -> Result<()> {
+		match result {
+			Ok(_) => Ok(()),
+			Err(e) => {
+				self.inner.store_err(Err(e));
+				match self.inner.bg_err.lock().as_ref() {
+					Some(e) => Err(Error::Background(e.clone())),
+					None => Ok(()),
+				}
+			},
+		}
+	}
+
 	#[cfg(feature = "instrumentation")]
 	pub fn process_reindex(&self) -> Result<()> {
-		self.inner.process_reindex()?;
-		Ok(())
+		self.step(self.inner.process_reindex())
 	}
 
 	#[cfg(feature = "instrumentation")]
 	pub fn process_commits(&self) -> Result<()> {
-		self.inner.process_commits(&self.inner)?;
-		Ok(())
+		self.step(self.inner.process_commits(&self.inner))
 	}
 
 	#[cfg(feature = "instrumentation")]
 	pub fn flush_logs(&self) -> Result<()> {
-		self.inner.flush_logs(0)?;
-		Ok(())
+		self.step(self.inner.flush_logs(0))
 	}
 
 	#[cfg(feature = "instrumentation")]
 	pub fn enact_logs(&self) -> Result<()> {
-		while self.inner.enact_logs(false)? {}
-		Ok(())
+		loop {
+			match self.inner.enact_logs(false) {
+				Ok(true) => continue,
+				r => return self.step(r),
+			}
+		}
 	}
 
 	#[cfg(feature = "instrumentation")]
 	pub fn clean_logs(&self) -> Result<()> {
-		self.inner.clean_logs()?;
-		Ok(())
+		self.step(self.inner.clean_logs())
 	}
 }
 
